@@ -18,6 +18,8 @@ def configs(tier, seed):
             cfgs.append(dict(model="sup", m=5, ntr=4, nte=1, ext=ext, labels=[0, 1, 0, 1], weight=9000, wstride=401))
             cfgs.append(dict(model="semi", m=5, ntr=2, nu=2, nte=1, ext=ext, labels=[0, 1], weight=2000, wstride=53))
             cfgs.append(dict(model="semi", m=5, ntr=3, nu=1, nte=1, ext=ext, labels=[0, 1, 0], weight=2000, wstride=53))
+            # a real k search (the normalised cut decides best_k) on permuted row indices
+            cfgs.append(dict(model="uns", m=3, ntr=3, nte=0, k=2, ext=ext, weight=400))
             cfgs.append(dict(model="uns", m=4, ntr=3, nte=1, k=2, ext=ext, weight=3000))
             cfgs.append(dict(model="uns", m=4, ntr=4, nte=0, k=2, ext=ext, weight=9000))
     return cfgs
